@@ -198,6 +198,9 @@ func nhScenarioSnap(rec *nhRec, tid int, seed int64, smType string, store string
 			continue
 		}
 		action := []string{"save", "save", "receive", "receive", "export", "savesave"}[rng.Intn(6)]
+		if smType == "ondisk" && rng.Intn(2) == 0 {
+			action = "receive" // streamed snapshots, Sync and Shrink after the recovery
+		}
 		fired := false
 		switch action {
 		case "save", "export", "savesave":
@@ -219,9 +222,18 @@ func nhScenarioSnap(rec *nhRec, tid int, seed int64, smType string, store string
 				}
 			}
 			time.Sleep(time.Duration(30+rng.Intn(40)) * time.Millisecond)
-			r.restartObserved(h)
-			arm(h, 260)
-			fired = waitFired(h, 700*time.Millisecond)
+			if smType == "ondisk" && rng.Intn(4) != 0 {
+				// the power fails right after the state machine has recovered from the streamed
+				// snapshot: during the Sync / Shrink / compaction that follow
+				c.armOnRecover = true
+				r.restartObserved(h)
+				fired = waitFired(h, 900*time.Millisecond)
+				c.armOnRecover = false
+			} else {
+				r.restartObserved(h)
+				arm(h, 260)
+				fired = waitFired(h, 700*time.Millisecond)
+			}
 		}
 		c.crashNow(h, "round")
 		r.hmu[v-1].Lock()
